@@ -101,6 +101,14 @@ func settingsCombos() []world.ServiceSettings {
 			}
 		}
 	}
+	// a configured skew below one second (appended, so that earlier sweep indices keep their meaning)
+	for _, ra := range []bool{false, true} {
+		for _, ca := range []string{"", "match", "other"} {
+			for _, kp := range []string{"", "HTTP/host.sim.test", "HTTP/other.sim.test"} {
+				out = append(out, world.ServiceSettings{SkewMs: 500, RequireAddr: ra, ClientAddr: ca, KtPrinc: kp, DecodePAC: ra})
+			}
+		}
+	}
 	return out
 }
 
@@ -211,6 +219,10 @@ func Gen(caseID, tier string) (json.RawMessage, error) {
 	tp := Tape{Engine: "c01", RunSeed: n}
 	// settings (swarm: most runs keep most settings at their defaults)
 	tp.Settings.SkewS = int64(r.PickInt(0, 0, 1, 300, 300, 3600))
+	if r.Chance(1, 8) {
+		// a configured skew need not be a whole number of seconds (nor as much as one)
+		tp.Settings.SkewS, tp.Settings.SkewMs = int64(r.PickInt(0, 0, 0, 1, 2)), int64(r.PickInt(1, 250, 500, 999))
+	}
 	if r.Chance(1, 4) {
 		tp.Settings.RequireAddr = true
 	}
